@@ -10,6 +10,7 @@ import (
 	"sort"
 	"strconv"
 	"strings"
+	"sync/atomic"
 	"testing"
 	"time"
 
@@ -83,6 +84,40 @@ func slug(s string) string {
 	return s
 }
 
+// spin watchdog: a run that does not end within wallLimit of real time is a
+// CPU spin in code the scheduler cannot pre-empt (a dependency, or a loop
+// without statements).  The scenario is written out and the process exits 3;
+// the supervisor decides what that means for the property.
+type runInfo struct {
+	start time.Time
+	sc    *Scenario
+	idx   int64
+	seed  int64
+}
+
+var curRun atomic.Pointer[runInfo]
+
+func startWatchdog(prop, dir string) {
+	limit := time.Duration(envInt("VERIF_SPIN_S", 30)) * time.Second
+	go func() {
+		for {
+			time.Sleep(500 * time.Millisecond)
+			ri := curRun.Load()
+			if ri == nil || time.Since(ri.start) < limit {
+				continue
+			}
+			rf := &ReplayFile{Property: prop, Signature: "work-in-proportion/spin", Message: fmt.Sprintf("run %d did not finish within %v of wall-clock time: a task spins without reaching a yield point", ri.idx, limit), VerifSeed: ri.seed, RunIndex: ri.idx, Scenario: ri.sc, Spin: true}
+			path := fmt.Sprintf("%s/%s-spin-%d-%d.json", dir, prop, ri.seed, ri.idx)
+			if dir == "" {
+				path = fmt.Sprintf("/tmp/%s-spin-%d-%d.json", prop, ri.seed, ri.idx)
+			}
+			os.WriteFile(path, rf.JSON(), 0o644)
+			fmt.Printf("SPIN %s\n", path)
+			os.Exit(3)
+		}
+	}()
+}
+
 // TestWorker is the process entry point used by /verif/check.
 func TestWorker(t *testing.T) {
 	prop := os.Getenv("VERIF_PROP")
@@ -121,6 +156,7 @@ func TestWorker(t *testing.T) {
 		return false
 	}
 	maxNew := int(envInt("VERIF_MAXNEW", 3))
+	startWatchdog(prop, replayDir)
 
 	st := &WorkerStats{Prop: prop, Worker: worker, Faults: map[string]int{}, Probes: map[string]int{}, Policies: map[string]int{}, Outcomes: map[string]int{}, Families: map[string]int{}, OtherProps: map[string]int{}, Known: map[string]int{}}
 	traces := map[uint64]bool{}
@@ -139,7 +175,9 @@ func TestWorker(t *testing.T) {
 		}
 		genRunIndex = idx
 		sc := gen(prop, seed, thorough)
+		curRun.Store(&runInfo{start: time.Now(), sc: sc, idx: idx, seed: verifSeed})
 		res := RunScenario(t, sc, simrt.NewPolicy(sc.Policy), true)
+		curRun.Store(nil)
 		st.Runs++
 		st.Yields += int64(res.Yields)
 		st.Steps += int64(res.Steps)
@@ -170,8 +208,16 @@ func TestWorker(t *testing.T) {
 				states[s] = true
 			}
 		}
-		if res.Outcome == "steps" {
-			st.ToolTrouble = append(st.ToolTrouble, fmt.Sprintf("run %d hit the step limit", idx))
+		if res.Outcome == "steps" || res.Outcome == "yields" {
+			judged := false
+			for _, v := range res.Viol {
+				if v.Rule == "work-in-proportion" {
+					judged = true // for hostile-client scenarios a runaway run is a verdict, not tool trouble
+				}
+			}
+			if !judged {
+				st.ToolTrouble = append(st.ToolTrouble, fmt.Sprintf("run %d hit the %s limit", idx, res.Outcome))
+			}
 		}
 		if len(st.Samples) < 2 && k%7 == 0 {
 			st.Samples = append(st.Samples, map[string]any{"run_index": idx, "scenario": sc, "outcome": res.Outcome, "steps": res.Steps, "yields": res.Yields, "events": res.NEvents})
@@ -290,6 +336,15 @@ func replayFile(t *testing.T, prop, path string) {
 	if err := json.Unmarshal(b, &rf); err != nil {
 		fmt.Println("TOOL-TROUBLE cannot parse replay:", err)
 		os.Exit(2)
+	}
+	if rf.Spin {
+		// no tape exists for a run that never ended: re-run it under its own policy with the watchdog armed
+		startWatchdog(prop, "")
+		curRun.Store(&runInfo{start: time.Now(), sc: rf.Scenario, idx: rf.RunIndex, seed: rf.VerifSeed})
+		RunScenario(t, rf.Scenario, simrt.NewPolicy(rf.Scenario.Policy), false)
+		curRun.Store(nil)
+		fmt.Println(`REPLAY-RESULT {"reproduced":false,"identical_trace":false,"diverged":"","signature":"work-in-proportion/spin","outcome":"finished"}`)
+		return
 	}
 	res := RunScenario(t, rf.Scenario, &simrt.Replay{Tape: rf.Tape, Sel: rf.Selects, Strict: true}, true)
 	if os.Getenv("VERIF_DUMP") != "" {
